@@ -26,8 +26,10 @@ fn main() {
         "perft" => pure::perft(&args),
         "tt-seq" => tt::seq(&args),
         "tt-hammer" => tt::hammer(&args),
+        "tt-own" => tt::own(&args),
         "search" => search::run(&args),
         "search-public" => search::public(&args),
+        "mate-cert" => search::mate_cert(&args),
         "parse" => textreplay::parse(&args),
         "san" => textreplay::san(&args),
         "fen" => textreplay::fen(&args),
